@@ -15,9 +15,7 @@ for C14 (`Model/TaxLoad.lean`: `rawLines` = successive `ReadSlice('\n')`, `csvLi
   quoted field is the explicit outcome `unmodelled`; with `LazyQuotes` a quote inside a bare field is an
   ordinary byte);
 * `mimetype.Detect` on the first 3072 bytes, the last incomplete line dropped (`dropLastLine`), as far as it
-  chooses the reader: children of `text/plain` in their order — `text/csv` (generic detector), then
-  `text/tab-separated-values` (the same detector with a tab: such a text goes to the OLD reader), …, then the
-  extension `text/ngsfilter-csv` (`NGSFilterCsvDetector`).  A "binary data byte" (e.g. a vertical tab) in the window makes the input
+  chooses the reader, in the state of the mimetype tree of the running command (`whichReader`).  A "binary data byte" (e.g. a vertical tab) in the window makes the input
   `application/octet-stream`: old reader.  The other children (html, xml, php, js, lua, perl, python, json,
   ndjson, rtf, srt, tcl, vcard, icalendar, warc, vtt) and the formats recognised by magic numbers are not
   modelled: the text is assumed to be ASCII that none of them recognises;
@@ -96,22 +94,57 @@ inductive Kind | csv | old
   deriving DecidableEq, Repr
 
 /-- `magic.Text`: a "binary data byte" of the mimesniff standard (NUL..BS, VT, SO..SUB, FS..US) in the window
-makes the input `application/octet-stream`, not `text/plain`: none of the CSV detectors is even asked -/
+makes the input `application/octet-stream`, not `text/plain`: the children of `text/plain` are not asked -/
 def isBinaryByte (b : UInt8) : Bool :=
   decide (b ≤ 8) || b == 11 || (decide (14 ≤ b) && decide (b ≤ 26)) || (decide (28 ≤ b) && decide (b ≤ 31))
 
-/-- the choice among the children of `text/plain` (`none` = a quoted field met by a detector) -/
-def whichText (text : Bytes) : Option Kind := do
-  let pre := detectorInput text
-  if (← svDetect 44 pre) then return .csv          -- text/csv
-  if (← svDetect 9 pre) then return .old           -- text/tab-separated-values
-  if (← ngsDetect pre) then return .csv            -- text/ngsfilter-csv
-  return .old                                      -- text/plain
+def startsWith (p : Bytes) (b : Bytes) : Bool := b.take p.length == p
 
-/-- the branch taken by `ReadNGSFilter` -/
-def whichReader (text : Bytes) : Option Kind :=
-  if (text.take readLimit).any isBinaryByte then some .old      -- application/octet-stream
-  else whichText text
+/-- the FASTQ detector of `OBIMimeTypeGuesser`: regexp `^@[^ ].*\n([^ ]+\n\+|[^ \n]*\n?$)` on the window.
+`rest` is what follows the first line feed at an index ≥ 2. -/
+def fastqTail (rest : Bytes) : Bool :=
+  -- `[^ \n]*\n?$`
+  (let w := if rest.getLast? = some 10 then rest.dropLast else rest
+   !w.contains 32 && !w.contains 10) ||
+  -- `[^ ]+\n\+`: a line feed followed by `+`, at least one byte and no blank before it
+  ((List.range rest.length).any fun k =>
+    decide (k ≥ 1) && rest[k]? == some 10 && rest[k + 1]? == some 43 && !(rest.take k).contains 32)
+
+def fastqDetect (raw : Bytes) : Bool :=
+  match raw with
+  | 64 :: c :: t =>
+    if c = 32 then false
+    else match t.idxOf? 10 with
+      | some p => fastqTail (t.drop (p + 1))
+      | none => false
+  | _ => false
+
+/-- the detectors that `OBIMimeTypeGuesser` (called for the first sequence file, BEFORE the sample sheet is
+read by the command) attaches in front of the ROOT of the mimetype tree — EMBL, GenBank, ecoPCR, FASTQ, FASTA:
+a sheet that looks like one of them goes to the old reader.  (GenBank: the prefix `LOCUS`; its second form,
+a first line `… Genetic Sequence Data Bank`, is not modelled.) -/
+def seqFormatDetect (raw : Bytes) : Bool :=
+  startsWith [73, 68, 32, 32, 32] raw ||                                        -- "ID   "
+  startsWith [76, 79, 67, 85, 83, 32, 32, 32, 32, 32, 32, 32] raw ||            -- "LOCUS       "
+  startsWith [35, 64, 101, 99, 111, 112, 99, 114, 45, 118, 50] raw ||           -- "#@ecopcr-v2"
+  fastqDetect raw ||
+  (match raw with | 62 :: c :: _ => c != 32 | _ => false)                       -- `^>[^ ]`
+
+/-- the branch taken by `ReadNGSFilter` IN THE STATE OF THE RUNNING COMMAND (the mimetype tree is process-global
+and both guessers extend it at every call, in front: `OBIMimeTypeGuesser` has been called for the input file
+when obimultiplex reads its sample sheet).  In order: the sequence formats at the root (→ old reader); the csv
+detector attached at the root (→ `text/csv`, asked even for "binary" data); then, only for text,
+`NGSFilterCsvDetector` in front of the children of `text/plain` (→ `text/ngsfilter-csv`); the generic `text/csv`
+detector decides like the one at the root; every other outcome (tab-separated values, plain text, octet-stream)
+goes to the old reader.  `none` = a quoted field met by a detector. -/
+def whichReader (text : Bytes) : Option Kind := do
+  let raw := text.take readLimit
+  let pre := detectorInput text
+  if seqFormatDetect raw then return .old
+  if (← svDetect 44 pre) then return .csv
+  if raw.any isBinaryByte then return .old
+  if (← ngsDetect pre) then return .csv
+  return .old
 
 /-! ## the two readers from the bytes -/
 
